@@ -33,33 +33,33 @@ FORBIDDEN = ["sorry", "admit", "native_decide", "bv_decide", "implemented_by", "
 PROPS = {
     "C01": dict(streams=[("C01", 0.75), ("STAGE", 0.25)],
                 model=["M:levels", "M:panic", "M:st-explicit", "M:st-seq", "M:st-weak", "M:st-neutral", "M:st-levels", "M:nohooks"],
-                quick=14000, thorough=400000),
-    "C02": dict(streams=[("C02", 1.0)], model=["M:classes", "M:paras"], quick=20000, thorough=600000),
-    "C03": dict(streams=[("C03", 1.0)], model=["M:rl", "M:rpc"], quick=20000, thorough=600000),
-    "C04": dict(streams=[("C04", 1.0)], model=["M:rv", "M:panic"], quick=30000, thorough=1000000),
-    "C05": dict(streams=[("C05", 1.0)], model=["M:runs", "M:druns"], quick=12000, thorough=300000),
-    "C06": dict(streams=[("C06", 1.0)], model=["M:ro"], quick=20000, thorough=600000),
-    "C07": dict(streams=[("C07", 0.9), ("STAGE", 0.1)], model=["M:panic", "M:nohooks"], quick=4000, thorough=100000),
-    "C08": dict(streams=[("C08", 1.0)], model=["M:classes", "M:levels", "M:rl", "M:rpc"], quick=16000, thorough=500000),
-    "C09": dict(streams=[("C09", 0.7), ("C01", 0.3)], model=["M:classes", "M:levels", "M:paras"], quick=14000, thorough=400000),
-    "C10": dict(streams=[("C10", 0.7), ("C02", 0.3)], model=["M:classes", "M:levels", "M:paras"], quick=10000, thorough=300000),
+                quick=14000, thorough=1500000),
+    "C02": dict(streams=[("C02", 1.0)], model=["M:classes", "M:paras"], quick=20000, thorough=3000000),
+    "C03": dict(streams=[("C03", 1.0)], model=["M:rl", "M:rpc"], quick=20000, thorough=3000000),
+    "C04": dict(streams=[("C04", 1.0)], model=["M:rv", "M:panic"], quick=30000, thorough=5000000),
+    "C05": dict(streams=[("C05", 1.0)], model=["M:runs", "M:druns"], quick=12000, thorough=600000),
+    "C06": dict(streams=[("C06", 1.0)], model=["M:ro"], quick=20000, thorough=3000000),
+    "C07": dict(streams=[("C07", 0.9), ("STAGE", 0.1)], model=["M:panic", "M:nohooks"], quick=4000, thorough=300000),
+    "C08": dict(streams=[("C08", 1.0)], model=["M:classes", "M:levels", "M:rl", "M:rpc"], quick=16000, thorough=2500000),
+    "C09": dict(streams=[("C09", 0.7), ("C01", 0.3)], model=["M:classes", "M:levels", "M:paras"], quick=14000, thorough=3000000),
+    "C10": dict(streams=[("C10", 0.7), ("C02", 0.3)], model=["M:classes", "M:levels", "M:paras"], quick=10000, thorough=2000000),
     "C11": dict(streams=[("C11", 0.8), ("STAGE", 0.2)],
-                model=["M:levels", "M:panic", "M:runs", "M:ro", "M:st-explicit", "M:st-neutral", "M:st-levels", "M:nohooks"], quick=1500, thorough=40000,
+                model=["M:levels", "M:panic", "M:runs", "M:ro", "M:st-explicit", "M:st-neutral", "M:st-levels", "M:nohooks"], quick=1500, thorough=150000,
                 spec_extra=["S:C01", "S:C05", "S:C06", "S:C07", "S:C08"]),
-    "C12": dict(streams=[("C12", 1.0)], model=["M:classes", "M:levels", "M:paras", "M:basedir", "M:rl", "M:runs", "M:ro"], quick=16000, thorough=500000,
+    "C12": dict(streams=[("C12", 1.0)], model=["M:classes", "M:levels", "M:paras", "M:basedir", "M:rl", "M:runs", "M:ro"], quick=16000, thorough=3000000,
                 spec_extra=["S:C01", "S:C02", "S:C03", "S:C05", "S:C06", "S:C16"]),
-    "C13": dict(streams=[("C13", 0.7), ("C01", 0.2), ("STAGE", 0.1)], model=["M:levels", "M:st-explicit", "M:st-seq", "M:nohooks"], quick=12000, thorough=400000),
+    "C13": dict(streams=[("C13", 0.7), ("C01", 0.2), ("STAGE", 0.1)], model=["M:levels", "M:st-explicit", "M:st-seq", "M:nohooks"], quick=12000, thorough=2000000),
     "C14": dict(streams=[("C14", 1.0)], model=["M:cls", "M:ver"], quick=2, thorough=2, exhaustive=True),
     "C15": dict(streams=[("C15", 1.0)], model=["M:brk", "M:cls"], quick=2, thorough=2, exhaustive=True),
-    "C16": dict(streams=[("C16", 1.0)], model=["M:basedir"], quick=30000, thorough=1000000),
-    "C17": dict(streams=[("C17", 1.0)], model=["M:hasrtl", "M:dir", "M:pure"], quick=20000, thorough=600000),
-    "C18": dict(streams=[("C18", 1.0)], model=["M:charat", "M:iter", "M:deiter"], quick=30000, thorough=1000000),
-    "C19": dict(streams=[("C19", 1.0)], model=["M:level", "M:ver"], quick=127 + 256 + 2000, thorough=127 + 256 + 100000, exhaustive=True),
+    "C16": dict(streams=[("C16", 1.0)], model=["M:basedir"], quick=30000, thorough=5000000),
+    "C17": dict(streams=[("C17", 1.0)], model=["M:hasrtl", "M:dir", "M:pure"], quick=20000, thorough=3000000),
+    "C18": dict(streams=[("C18", 1.0)], model=["M:charat", "M:iter", "M:deiter"], quick=30000, thorough=5000000),
+    "C19": dict(streams=[("C19", 1.0)], model=["M:level", "M:ver"], quick=127 + 256 + 2000, thorough=127 + 256 + 1000000, exhaustive=True),
     # every feature build is tied to the SAME Model (bidi + line operations through the driver), and the builds'
     # digests over identical generated texts are compared with each other
     "C20": dict(streams=[("C20", 0.4), ("C01", 0.3), ("C06", 0.3)],
                 model=["M:levels", "M:classes", "M:paras", "M:rl", "M:rpc", "M:runs", "M:druns", "M:ro", "M:panic"],
-                quick=3000, thorough=60000, spec_extra=["S:C01", "S:C03", "S:C05", "S:C06"]),
+                quick=3000, thorough=150000, spec_extra=["S:C01", "S:C03", "S:C05", "S:C06"]),
 }
 
 def _exh(alpha, maxlen):
@@ -215,19 +215,34 @@ def run_pipeline(harness_bin, gen_args=None, stdin_file=None, out_prefix="run"):
 
 
 def parse_verdicts(lines_path, verd_path):
+    """Streams the two files in lock step.  Keeps the full line only for failing cases and a few samples;
+    for the others a 64-bit hash of the input (distinctness) and the stats."""
     res = []
+    nl = nv = 0
     with open(lines_path, encoding="utf-8", errors="replace") as fl, open(verd_path, encoding="utf-8", errors="replace") as fv:
-        ls = [l.rstrip("\n") for l in fl if l.startswith("#")]
-        vs = [l.rstrip("\n") for l in fv if l.startswith("#")]
-    n = min(len(ls), len(vs))
-    for i in range(n):
-        v = vs[i]
-        head, _, stats = v.partition(" | ")
-        toks = head.split(" ")
-        ident, mode, op = toks[0], toks[1], toks[2]
-        fail = toks[4:] if len(toks) > 3 and toks[3] == "FAIL" else []
-        res.append(dict(id=ident, mode=mode, op=op, fail=fail, stats=stats, line=ls[i]))
-    return res, len(ls), len(vs)
+        il = (l.rstrip("\n") for l in fl if l.startswith("#"))
+        iv = (l.rstrip("\n") for l in fv if l.startswith("#"))
+        while True:
+            l = next(il, None)
+            v = next(iv, None)
+            if l is not None:
+                nl += 1
+            if v is not None:
+                nv += 1
+            if l is None or v is None:
+                # count the rest of the longer file
+                nl += sum(1 for _ in il)
+                nv += sum(1 for _ in iv)
+                break
+            head, _, stats = v.partition(" | ")
+            toks = head.split(" ")
+            ident, mode, op = toks[0], toks[1], toks[2]
+            fail = toks[4:] if len(toks) > 3 and toks[3] == "FAIL" else []
+            keep = bool(fail) or len(res) < 3 or op in ("digest", "serde") or "PANIC" in l
+            key = hash(op + " " + input_key(l))
+            res.append(dict(id=ident, mode=mode, op=op, fail=fail, stats=stats, line=l if keep else None, key=key,
+                            panic=("PANIC" in l)))
+    return res, nl, nv
 
 
 def input_key(line):
@@ -370,6 +385,12 @@ def main():
                 r["features"] = tag_
                 r["stream"] = sname
             results.extend(rs)
+            if rc == 0 and nl == nv and not any(r["fail"] for r in rs):
+                for f_ in (lines, verd):
+                    try:
+                        os.remove(f_)
+                    except OSError:
+                        pass
             if prop == "C20":
                 h = hashlib.sha256()
                 for r in rs:
@@ -457,7 +478,7 @@ def main():
     keys = set()
     for r in results:
         if nontrivial(r):
-            keys.add(r["op"] + " " + input_key(r["line"]))
+            keys.add(r["key"])
     modes = {}
     ops = {}
     for r in results:
@@ -465,7 +486,7 @@ def main():
         ops[r["op"]] = ops.get(r["op"], 0) + 1
     lens = [int(m.group(1)) for r in results for m in [re.search(r"\bn=(\d+)", r["stats"])] if m]
     maxls = [int(m.group(1)) for r in results for m in [re.search(r"\bmaxl=(\d+)", r["stats"])] if m]
-    samples = [r["line"][:400] for r in results[:2]] + [r["line"][:400] for r in results[len(results) // 2: len(results) // 2 + 1]]
+    samples = [r["line"][:400] for r in results if r["line"]][:3]
     thm_samples = ["theorem UBidi.Props.%s.%s  axioms=%s" % (prop, n, axioms.get(n, "?")) for n in names[:6]]
     ev = {
         "property_id": prop,
@@ -497,7 +518,7 @@ def main():
             "max_level_seen": max(maxls) if maxls else 0,
             "model_disagreements": len(model_diff),
             "spec_failures": len(spec_fail),
-            "panics_seen": sum(1 for r in results if "PANIC" in r["line"]),
+            "panics_seen": sum(1 for r in results if r.get("panic")),
             "exhaustive": bool(cfg.get("exhaustive")),
             "exhaustive_small_scope_streams": exhaustive_streams,
             "feature_sets": [t for t, _ in feature_sets],
